@@ -28,13 +28,23 @@ def registered_models(p: Program) -> list[ClassInfo]:
     return sorted(cs, key=lambda c: -len(c.mro))
 
 
+def _as_param(v: Any) -> Any:
+    import dataclasses
+    from ..absval import ListV, Obj as O
+    if isinstance(v, O):
+        return dataclasses.replace(v, src='param')
+    if isinstance(v, ListV) and isinstance(v.elem, O):
+        return dataclasses.replace(v, elem=dataclasses.replace(v.elem, src='param'))
+    return v
+
+
 def _arg_values(it: EffectInterp, f: FuncInfo, skip: int = 1) -> list[list[Any]]:
     """argument vectors for a method call: every parameter Borrowed by its annotation; Optional ones also None"""
     a = f.node.args
     params = [*a.posonlyargs, *a.args][skip:]
     base: list[Any] = []
     for x in params:
-        base.append(it.value_of_annotation(f.module, x.annotation, B, f.cls))
+        base.append(_as_param(it.value_of_annotation(f.module, x.annotation, B, f.cls)))
     vecs = [base]
     for i, x in enumerate(params):
         t = norm(x.annotation) if x.annotation is not None else ''
@@ -46,7 +56,7 @@ def _arg_values(it: EffectInterp, f: FuncInfo, skip: int = 1) -> list[list[Any]]
 
 
 def setter_values() -> list[Any]:
-    return [Obj(None, B, False), NoneV(), Plain('param')]
+    return [Obj(None, B, False, 'param'), NoneV(), Plain('param')]
 
 
 def enumerate_entries(p: Program, it: EffectInterp, tier: str = 'thorough') -> dict[str, list[Entry]]:
